@@ -381,7 +381,7 @@ def bootEnv (answer : Bytes → Option Bytes) : Env Unit where
   send := fun _ _ _ => ((), .ok ())
   recv := fun _ h => ((), match answer h with | some r => .ok r | none => .error .io)
   pick := fun _ c => c.head?
-  codecs := ⟨fun _ => none, fun _ => none⟩
+  codecs := ⟨fun _ => none, fun _ => none, fun _ => none⟩
   comp := fun _ b => b
 
 theorem getConn_unreachable (answer : Bytes → Option Bytes) (h : Bytes) (w : W Unit) (ha : answer h = none) (hc : h ∉ w.client.conns) :
